@@ -77,6 +77,8 @@ fn witness(info: &siginfo_t) {
 static REC_ON: AtomicBool = AtomicBool::new(false);
 static REC: std::sync::Mutex<Vec<(u32, usize, usize)>> = std::sync::Mutex::new(Vec::new());
 static LAST_SCAN_SIG: AtomicUsize = AtomicUsize::new(0);
+/// whether the consumer has begun the scan part of the batch being recorded (before that: flush)
+static SCAN_STARTED: AtomicBool = AtomicBool::new(false);
 
 fn observer(s: u32, a: usize, b: usize) {
     if s == site::DISPATCH_ENTER {
@@ -94,13 +96,15 @@ fn observer(s: u32, a: usize, b: usize) {
         return;
     }
     if crate::tid() == CONSUMER && crate::depth() == 0 {
+        let in_flush = !SCAN_STARTED.load(Ordering::Relaxed) && s != site::IT_SCAN;
         if s == site::IT_SCAN {
             LAST_SCAN_SIG.store(a, Ordering::Relaxed);
+            SCAN_STARTED.store(true, Ordering::Relaxed);
         } else if s == site::EX_LOAD && LAST_SCAN_SIG.load(Ordering::Relaxed) == THE_SIG.load(Ordering::Relaxed) as usize {
             THE_SLOT.store(a, Ordering::SeqCst);
         }
-        if REC_ON.load(Ordering::Relaxed) && LAST_SCAN_SIG.load(Ordering::Relaxed) == THE_SIG.load(Ordering::Relaxed) as usize {
-            // not inside a handler: the consumer is in its scan
+        if REC_ON.load(Ordering::Relaxed) && (in_flush || LAST_SCAN_SIG.load(Ordering::Relaxed) == THE_SIG.load(Ordering::Relaxed) as usize) {
+            // not inside a handler: the consumer is draining the self-pipe or scanning the slot of the signal
             if let Ok(mut g) = REC.try_lock() {
                 g.push((s, a, b));
             }
@@ -260,6 +264,22 @@ where
         return;
     }
     let readfd = new[0];
+    {
+        // history: an add_signal was refused with the documented panic (caught by the application), then the watched
+        // signal is added again, which is documented as a no-op
+        let h = signals.handle();
+        let prev_hook = std::panic::take_hook();
+        std::panic::set_hook(Box::new(|_| {}));
+        let r = std::panic::catch_unwind(std::panic::AssertUnwindSafe(|| h.add_signal(libc::SIGKILL)));
+        std::panic::set_hook(prev_hook);
+        if r.is_ok() {
+            acc.bad("C10", "setup", "add_signal(SIGKILL) did not panic".to_string());
+        }
+        if h.add_signal(sig).is_err() {
+            acc.bad("C10", "setup", "re-adding a watched signal failed".to_string());
+        }
+        director::lib_exit();
+    }
     let sh = Arc::new(Shared {
         cmd: AtomicU64::new(0), go: AtomicU64::new(0), done: AtomicU64::new(0), h_go: AtomicU64::new(0), h_done: AtomicU64::new(0), h_arrived: AtomicU64::new(0),
         problems: std::sync::Mutex::new(Vec::new()), seen: std::sync::Mutex::new(HashSet::new()), consumer_pth: AtomicUsize::new(0),
@@ -346,6 +366,7 @@ where
         sh.go.store(*served, Ordering::SeqCst);
         wait_for(&sh.done, *served, 20_000)
     };
+    let wake_missing = std::cell::Cell::new(0u64);
     let deliver = |n: u64| -> bool {
         for _ in 0..n {
             let d0 = DELIV[sig as usize].load(Ordering::SeqCst);
@@ -357,6 +378,10 @@ where
                 if crate::now_ms() - t0 > 10_000 {
                     return false;
                 }
+            }
+            // the consumer is idle and has not drained since: the delivery must have left a wake-up byte
+            if crate::sig::fionread(readfd) <= 0 {
+                wake_missing.set(wake_missing.get() + 1);
             }
         }
         true
@@ -376,6 +401,7 @@ where
             break;
         }
         REC.lock().unwrap().clear();
+        SCAN_STARTED.store(false, Ordering::SeqCst);
         REC_ON.store(true, Ordering::SeqCst);
         TRIAL_NO.fetch_add(1, Ordering::SeqCst);
         if dual {
@@ -413,6 +439,11 @@ where
         }
         let _ = run_cmd(1, &mut served);
         for (wi, w) in windows.iter().enumerate() {
+            if dual && w.3 == 1 && (w.0 == site::IT_FLUSH_BEGIN || w.0 == site::IT_FLUSH_END) {
+                // the flush of the first of the two pending() calls: the second batch does not exist yet (and the window
+                // runs into the harness's own hand-over code)
+                continue;
+            }
             // measure the window with an action that never fires
             let mut gap = 0u64;
             let mut k = u64::MAX - 1;
@@ -526,6 +557,11 @@ where
                 for (sg, p) in sh.problems.lock().unwrap().drain(..) {
                     acc.bad("C10", &sg, format!("{} [{}]", p, label));
                 }
+                if wake_missing.get() > 0 {
+                    acc.bad("C09", "no-wakeup-after-delivery", format!(
+                        "{} deliveries of signal {} to the idle consumer left no wake-up byte in the self-pipe although nothing had been drained since: a consumer blocked in wait() would sleep on [{}]",
+                        wake_missing.get(), sig, label));
+                }
                 if NO_INFO.load(Ordering::SeqCst) > 0 {
                     acc.inconclusive = Some("a queued signal arrived without its siginfo: the pending-signal quota of the user is exhausted".into());
                     break 'outer;
@@ -612,9 +648,12 @@ where
         let kt = ktid.load(Ordering::SeqCst);
         let prog = || BACKLOG_PROGRESS.load(Ordering::SeqCst);
         if kt != 0 && OPEN_BRACKETS.load(Ordering::SeqCst) > 0 && crate::probe::stably_blocked_in(kt, &[1, 44, 46, 20], None, 10, 10, &prog) && !done.load(Ordering::SeqCst) {
-            acc.bad("C09", "consumer-blocked-in-its-own-delivery", format!(
+            let detail = format!(
                 "{}: with {} wake-ups undrained a delivery on the consumer's own thread is blocked (stable) in write/send inside the handler: the consumer never gets back to wait() and never obtains the signal",
-                ename, BACKLOG_PROGRESS.load(Ordering::SeqCst)));
+                ename, BACKLOG_PROGRESS.load(Ordering::SeqCst));
+            acc.bad("C09", "consumer-blocked-in-its-own-delivery", detail.clone());
+            acc.bad("C13", "delivery-blocked-on-full-descriptor", detail.clone());
+            acc.bad("C03", "dispatch-blocks", detail);
             // the thread cannot be joined: report and leave
             for (p, sg, d) in acc.bad.iter() {
                 emit_violation(p, sg, d);
@@ -637,6 +676,73 @@ where
     if acc.samples.len() < 6 {
         acc.samples.push(J::s(&format!("backlog {}: {} deliveries on the consumer thread with nothing draining, all returned; pending() then yielded {} item(s)", ename, N, yields.load(Ordering::SeqCst))));
     }
+}
+
+/// C09: instances are independent. Two instances open at once (same signal, different signals) and one created after
+/// another was dropped with an unread wake-up byte: every delivery of a watched signal leaves a wake-up byte in the
+/// instance's own self-pipe, and its next batch has the signal.
+fn pair(acc: &mut Acc) {
+    use signal_hook::iterator::Signals;
+    let (s, t) = (libc::SIGUSR2, libc::SIGUSR1);
+    let _keep_t = unsafe { signal_hook_registry::register(t, || ()) };
+    let mk = |sigs: &[c_int]| -> Option<(Signals, c_int)> {
+        let before = crate::sig::open_fds();
+        let inst = Signals::new(sigs).ok()?;
+        let new: Vec<c_int> = crate::sig::open_fds().into_iter().filter(|f| !before.contains(f)).collect();
+        if new.len() != 2 {
+            return None;
+        }
+        Some((inst, new[0]))
+    };
+    let mut check = |what: &str, insts: &mut [(&mut Signals, c_int, c_int)], acc: &mut Acc| {
+        for (inst, rfd, sig) in insts.iter_mut() {
+            if crate::sig::fionread(*rfd) <= 0 {
+                acc.bad("C09", "no-wakeup-after-delivery", format!("{}: after a delivery of signal {} the self-pipe of an instance watching it holds no wake-up byte: its consumer would stay blocked", what, sig));
+            }
+            let got: Vec<c_int> = inst.pending().collect();
+            if !got.contains(sig) {
+                acc.bad("C09", "delivery-lost-in-scan", format!("{}: an instance watching signal {} did not report its delivery (got {:?})", what, sig, got));
+            }
+        }
+        acc.trials += 1;
+        acc.fired += 1;
+        acc.keys.insert(format!("pair:{}", what));
+    };
+    for round in 0..20 {
+        // (a) two instances watch the same signal
+        if let (Some((mut a, ra)), Some((mut b, rb))) = (mk(&[s]), mk(&[s])) {
+            unsafe { libc::raise(s) };
+            check("two instances, same signal", &mut [(&mut a, ra, s), (&mut b, rb, s)], acc);
+            // (b) one of them gets a delivery while the other one still has an unread byte
+            unsafe { libc::raise(s) };
+            let _ = a.pending().count();
+            unsafe { libc::raise(s) };
+            check("two instances, one drained in between", &mut [(&mut a, ra, s), (&mut b, rb, s)], acc);
+        } else {
+            acc.inconclusive = Some("could not create two instances".into());
+            return;
+        }
+        // (c) different signals, deliveries back to back
+        if let (Some((mut a, ra)), Some((mut b, rb))) = (mk(&[s]), mk(&[t])) {
+            unsafe { libc::raise(s) };
+            unsafe { libc::raise(t) };
+            check("two instances, different signals", &mut [(&mut a, ra, s), (&mut b, rb, t)], acc);
+        }
+        // (d) an instance is dropped with an unread wake-up byte, then a new one is created
+        if let Some((a, _)) = mk(&[s]) {
+            unsafe { libc::raise(s) };
+            drop(a);
+        }
+        if let Some((mut c, rc)) = mk(&[s]) {
+            unsafe { libc::raise(s) };
+            check("instance created after another was dropped unread", &mut [(&mut c, rc, s)], acc);
+        }
+        if !acc.bad.is_empty() {
+            break;
+        }
+        let _ = round;
+    }
+    director::lib_exit();
 }
 
 // ------------------------------------------------------------------------------------------- channel
@@ -864,7 +970,10 @@ pub fn main(args: &[String]) -> i32 {
             unsafe {
                 signal_hook_registry::register_sigaction(libc::SIGUSR2, witness).expect("witness");
             }
-            backlog("SignalOnly", SignalOnly::default(), &mut acc);
+            pair(&mut acc);
+            if acc.bad.is_empty() && acc.inconclusive.is_none() {
+                backlog("SignalOnly", SignalOnly::default(), &mut acc);
+            }
             if acc.bad.is_empty() && acc.inconclusive.is_none() {
                 backlog("WithRawSiginfo", WithRawSiginfo::default(), &mut acc);
             }
